@@ -117,6 +117,15 @@ inductive Op where
   | unobstacle
   /-- background rotation: wait until no rotation thread is left, then look at the disk -/
   | quiesce
+  /-- from here on the process may not modify the directory of the log file (it runs under a uid
+  that owns the log file and the archive directory only) … -/
+  | protect
+  /-- … until here -/
+  | unprotect
+  /-- from here on the archive directory is on another filesystem: `rename` of the log file into it
+  is refused (EXDEV) and `move_file` takes its copy + remove fallback; the meaning of a move is the
+  same -/
+  | crossMount
   deriving Repr, DecidableEq
 
 structure SpecCtx where
@@ -124,12 +133,26 @@ structure SpecCtx where
   /-- is a fault injected into the n-th rotation attempt -/
   injected : Nat → Bool
   obstaclePath : Path
+  /-- the crash image of the n-th attempt is taken INSIDE the compressing final step (between the
+  copy into slot `base` and the removal of the source), not at a step boundary -/
+  crashMid : Nat → Bool := fun _ => false
 
 structure SpecState where
   prev : Disk
   attempts : Nat
   /-- the writer was closed by a roll that failed, and not reopened since (same appender) -/
   afterFailedRoll : Bool
+  /-- the directory of the log file may not be modified (between the ops `p` and `v`) -/
+  prot : Bool := false
+  /-- a rotation failed or was interrupted and none has completed since: the active file still holds
+  the chunk the completed rotation would have archived -/
+  pending : Bool := false
+
+/-- a different failure later in the history is reported in preference to a recorded finding -/
+def orElse (rest : Option (String × String)) (k : String × String) : Option (String × String) :=
+  match rest with
+  | some f => some f
+  | none => some k
 
 /-- the disk with the active file removed (what a `append(false)` appender deliberately discards
 when it is *built*) -/
@@ -139,6 +162,10 @@ def withoutActive (file : Path) (d : Disk) : Disk := d.erase file
 def sandwich (r : RollerCfg) (file : Path) (start now : Disk) : Bool :=
   isSuffix (flat (retain id r file start)) (streamOf r file now) &&
     isSuffix (streamOf r file now) (streamOf r file start)
+
+/-- the first half of the sandwich: nothing the completed rotation retains is missing -/
+def keepsRetained (r : RollerCfg) (file : Path) (start now : Disk) : Bool :=
+  isSuffix (flat (retain id r file start)) (streamOf r file now)
 
 /-- expected disk at rotation start, from the previous snapshot, when no data may be lost -/
 def expectedStart (c : AppCfg) (rec : Bytes) (prev : Disk) : Disk :=
@@ -164,15 +191,26 @@ def checkHistory (x : SpecCtx) : SpecState → List (Op × OpObs) → Option (St
           (withoutActive x.obstaclePath s.prev).files.all (fun e => o.final.get? e.1 = some e.2)
       then checkHistory x { s with prev := o.final } rest
       else some ("placing the obstacle changed other files", "C08/harness")
+    | .protect | .unprotect | .crossMount =>
+      if streamOf r c.file o.final ≠ streamOf r c.file s.prev then
+        some ("setting the scene changed the stream", "C08/harness")
+      else checkHistory x { s with prev := o.final, prot := (op == .protect || (s.prot && op == .crossMount)) } rest
     | .restart =>
       if o.res ≠ "rs:ok" then some ("a restarted appender cannot open its file", "C08/restart-failed")
       else
-        let keep := match c.mode with
-          | .append => s.prev
-          | .truncate => withoutActive c.file s.prev
+        -- `append(false)` discards the active file when the appender is built: that is what the
+        -- user configured — unless the active file still holds the chunk of a rotation that failed
+        -- or was interrupted (`pending`): the statement promises that chunk to a restarted appender
+        let exempt := c.mode = .truncate && !s.pending
+        let keep := if exempt then withoutActive c.file s.prev else s.prev
+        let next := checkHistory x { prev := o.final, attempts := s.attempts, afterFailedRoll := false, prot := s.prot, pending := (s.pending && c.mode = .append) } rest
         if streamOf r c.file o.final ≠ streamOf r c.file keep then
-          some ("restart lost acknowledged data", "C08/restart-loses-data")
-        else checkHistory x { prev := o.final, attempts := s.attempts, afterFailedRoll := false } rest
+          if c.mode = .truncate && s.pending &&
+              streamOf r c.file o.final = streamOf r c.file (withoutActive c.file s.prev) then
+            orElse next ("a restarted append(false) appender truncated the chunk of a failed or interrupted rotation",
+              "C08/truncate-restart-after-interrupted-roll")
+          else some ("restart lost acknowledged data", "C08/restart-loses-data")
+        else next
     | .append rec answer =>
       if o.res = "PANIC" then some ("append panicked", "C08/panic")
       else if !answer then
@@ -185,35 +223,52 @@ def checkHistory (x : SpecCtx) : SpecState → List (Op × OpObs) → Option (St
         let n := s.attempts
         let start := expectedStart c rec s.prev
         let isCrash := o.res = "crash"
-        let obstacle := s.prev.has x.obstaclePath
         -- (1) the rotation starts from a disk that still holds everything
         match o.boundaries.head? with
         | some b0 =>
+          -- what obstructs this rotation: an injected fault, the obstacle (a non-empty directory at
+          -- the top archive name, which stops the first step when that step has something to move),
+          -- or a directory the process may not modify (the final step cannot retire the log file)
+          let obstructs := b0.has x.obstaclePath &&
+            (r.count = 1 || (slot r b0 (r.base + r.count - 2)).isSome)
+          let mustFail := x.injected n || obstructs || s.prot
           if streamOf r c.file b0 ≠ streamOf r c.file start then
             some ("acknowledged data lost before the rotation started", lossSig c s)
           -- (2) every step boundary, and the final disk, keep what the completed rotation retains
           else if !(o.boundaries.all (fun b => sandwich r c.file b0 b)) then
             some ("a step boundary lost data the completed rotation retains", "C08/crash-image-loses-data")
           else if isCrash then
+            let next := checkHistory x { prev := o.final, attempts := n + 1, afterFailedRoll := false, prot := s.prot, pending := true } rest
             if !sandwich r c.file b0 o.final then
-              some ("the crash image lost data the completed rotation retains", "C08/crash-image-loses-data")
-            else checkHistory x { prev := o.final, attempts := n + 1, afterFailedRoll := false } rest
+              if x.crashMid n then
+                orElse next ("a crash image taken inside the compressing final step holds the rolled chunk both in slot base and at the active path",
+                  "C08/crash-inside-compress-duplicates")
+              else
+                some ("the crash image lost data the completed rotation retains", "C08/crash-image-loses-data")
+            else next
           else if o.res = "err" then
-            if !(x.injected n || obstacle) then
+            if !mustFail then
               some ("append failed although nothing obstructs", "C08/append-failed")
-            else if !sandwich r c.file b0 o.final then
+            else if !sandwich r c.file b0 o.final && s.prot && !x.injected n then
+              some ("the final step failed half-way and left the rolled chunk both in slot base and at the active path: the reading is not a suffix of the stream",
+                "C08/move-fallback-duplicates")
+            else if !keepsRetained r c.file b0 o.final then
               some ("the failed rotation lost data the completed rotation retains", "C08/failed-rotation-loses-data")
-            else checkHistory x { prev := o.final, attempts := n + 1, afterFailedRoll := true } rest
+            else if !sandwich r c.file b0 o.final then
+              some ("the failed rotation left acknowledged data twice: the reading is not a suffix of the stream",
+                "C08/failed-rotation-duplicates")
+            else checkHistory x { prev := o.final, attempts := n + 1, afterFailedRoll := true, prot := s.prot, pending := true } rest
           else
             -- success: exactly the completed rotation, plus the record for a pre-process trigger
             if x.injected n then some ("an injected fault was not reported", "C08/fault-not-reported")
+            else if mustFail then some ("a step that cannot succeed was not reported", "C08/fault-not-reported")
             else
               let want := flat (retain id r c.file b0) ++ (if c.pre then rec else [])
               if streamOf r c.file o.final ≠ want then
                 some ("the completed rotation does not hold what it should retain", "C08/rotation-result")
               else if slot r o.final r.base ≠ b0.get? c.file then
                 some ("slot base does not hold the rolled file", "C08/rotation-result")
-              else checkHistory x { prev := o.final, attempts := n + 1, afterFailedRoll := false } rest
+              else checkHistory x { prev := o.final, attempts := n + 1, afterFailedRoll := false, prot := s.prot, pending := false } rest
         | none =>
           -- the rotation never reached its first step (count = 0 is outside C08's cases)
           some ("no rotation although the trigger fired", "C08/no-rotation")
@@ -276,6 +331,6 @@ def checkBgHistory (c : AppCfg) (tempPrefix : Path) (sizeLimit : Option Nat := n
       else if !isSuffix (flat ((s.closed.take r.count).reverse) ++ s.active) (streamOf r c.file o.final) then
         some ("an acknowledged record is missing at quiescence", "C08/background-record-lost")
       else checkBgHistory c tempPrefix sizeLimit s rest
-    | .obstacle | .unobstacle => checkBgHistory c tempPrefix sizeLimit s rest
+    | .obstacle | .unobstacle | .protect | .unprotect | .crossMount => checkBgHistory c tempPrefix sizeLimit s rest
 
 end Log4rs.Roller
